@@ -62,10 +62,21 @@ fn parse_default_value(
 fn parse_type(pair: Pair<Rule>, pc: &mut PositionCalculator) -> Result<Positioned<Type>> {
     debug_assert_eq!(pair.as_rule(), Rule::type_);
 
-    Ok(Positioned::new(
-        Type::new(pair.as_str()).unwrap(),
-        pc.step(&pair),
-    ))
+    let pos = pc.step(&pair);
+    Ok(Positioned::new(build_type(pair), pos))
+}
+
+/// `[`, `]`, `!` and the name are separate tokens: build the type from the pairs
+/// rather than from the source text, which may hold ignored tokens.
+fn build_type(pair: Pair<Rule>) -> Type {
+    let nullable = !pair.as_str().ends_with('!');
+    let inner = exactly_one(pair.into_inner());
+    let base = match inner.as_rule() {
+        Rule::name => BaseType::Named(Name::new(inner.as_str())),
+        Rule::type_ => BaseType::List(Box::new(build_type(inner))),
+        _ => unreachable!(),
+    };
+    Type { base, nullable }
 }
 
 fn parse_const_value(
